@@ -1485,3 +1485,189 @@ Proof.
   rewrite HR. destruct (f64_exact (float_mant l) (float_exp l)); [reflexivity|].
   destruct (odd_part (float_mant l)); reflexivity.
 Qed.
+
+(* ------------------------------------------------------------------ *)
+(* strings                                                              *)
+(* ------------------------------------------------------------------ *)
+
+Lemma lex_char f idx c r acc :
+  c <> 34 -> c <> 92 -> char_quoted c = true ->
+  lex_string (S f) idx (c :: r) acc = lex_string f idx r (acc ++ utf8_enc c).
+Proof.
+  intros H1 H2 H3. cbn [lex_string].
+  replace (c =? 34) with false by lia. replace (c =? 92) with false by lia. rewrite H3. reflexivity.
+Qed.
+
+Lemma escape_char_not_special c v :
+  escape_char c = Some v -> (c =? 46) = false /\ (c =? 91) = false /\ ((c =? 10) || (c =? 13)) = false.
+Proof.
+  intro H. apply named_escapes_exact in H. unfold escape_table in H. cbn [In] in H.
+  repeat destruct H as [H|H]; try (injection H as <- <-; repeat split; reflexivity). contradiction.
+Qed.
+
+Lemma lex_esc f idx c v r acc :
+  escape_char c = Some v ->
+  lex_string (S f) idx (92 :: c :: r) acc = lex_string f idx r (acc ++ utf8_enc v).
+Proof.
+  intro H. destruct (escape_char_not_special c v H) as [E1 [E2 E3]].
+  cbn [lex_string]. change (92 =? 34) with false. change (92 =? 92) with true. cbv iota.
+  rewrite E1, E2, E3, H. reflexivity.
+Qed.
+
+Lemma lex_code f idx hx r acc :
+  hx <> [] -> forallb is_hex hx = true -> hex_val hx < 2 ^ 32 ->
+  lex_string (S f) idx (92 :: 91 :: hx ++ 93 :: r) acc = lex_string f idx r (acc ++ utf8_enc (hex_val hx)).
+Proof.
+  intros Hne Hh Hlt. cbn [lex_string]. change (92 =? 34) with false. change (92 =? 92) with true. cbv iota.
+  change (91 =? 46) with false. change (91 =? 91) with true. cbv iota.
+  rewrite (span_app is_hex hx (93 :: r) Hh) by reflexivity.
+  rewrite (codepoint_exact hx Hne Hh Hlt).
+  destruct hx as [|h0 hr]; [congruence|]. change (93 =? 93) with true. reflexivity.
+Qed.
+
+Definition head_not_ws (r : list N) : Prop := match r with c :: _ => is_ws c = false | [] => True end.
+
+Lemma lex_cont f idx nl ws r acc :
+  ((nl =? 10) || (nl =? 13)) = true -> forallb is_ws ws = true -> head_not_ws r ->
+  lex_string (S f) idx (92 :: nl :: ws ++ r) acc = lex_string f idx r acc.
+Proof.
+  intros Hnl Hws Hr. cbn [lex_string]. change (92 =? 34) with false. change (92 =? 92) with true. cbv iota.
+  replace (nl =? 46) with false by lia. replace (nl =? 91) with false by lia. rewrite Hnl.
+  rewrite (span_app is_ws ws r Hws) by (destruct r; [exact I | exact Hr]). reflexivity.
+Qed.
+
+(* VERBATIM_CONTENTS with a one-character sentinel, on contents free of it *)
+Lemma vc_loop_simple s idx ct r cons best :
+  forallb (fun c => negb (c =? s)) ct = true -> ct <> [] ->
+  vc_loop [s] false true idx (ct ++ s :: r) cons best = (Some (VContents, rev ct ++ cons, s :: r), O).
+Proof.
+  revert cons best idx; induction ct as [|c ct IH]; intros cons best idx Hct Hne; [congruence|].
+  cbn [forallb] in Hct. apply andb_true_iff in Hct as [Hc Hrest].
+  cbn [app vc_loop andb negb]. cbv iota. unfold is_at.
+  destruct ct as [|c' ct'].
+  - cbn [app starts_with]. rewrite N.eqb_refl. cbn [andb negb vc_loop]. cbn [rev app]. reflexivity.
+  - cbn [app starts_with]. cbn [forallb] in Hrest. apply andb_true_iff in Hrest as [Hc' Hrest'].
+    replace (c' =? s) with false by lia. cbn [andb negb].
+    change (c' :: ct' ++ s :: r) with ((c' :: ct') ++ s :: r).
+    rewrite IH; [| cbn [forallb]; rewrite Hc'; exact Hrest' | discriminate].
+    cbn [rev]. rewrite <- !app_assoc. reflexivity.
+Qed.
+
+Lemma lex_verb f idx s sep c0 ct r acc :
+  (idx <= 1)%nat -> s < 128 -> char_sentinel s = true -> sep_ok sep = true ->
+  forallb (fun c => negb (c =? s)) (c0 :: ct) = true ->
+  lex_string (S f) idx (92 :: 46 :: s :: sep ++ (c0 :: ct) ++ s :: r) acc
+  = lex_string f 1 r (acc ++ utf8_str (c0 :: ct)).
+Proof.
+  intros Hidx Hs Hcs Hsep Hct.
+  cbn [lex_string]. change (92 =? 34) with false. change (92 =? 92) with true. cbv iota.
+  change (46 =? 46) with true. cbv iota.
+  (* the sentinel token *)
+  assert (Hsp : span char_sentinel (s :: sep ++ (c0 :: ct) ++ s :: r) = ([s], sep ++ (c0 :: ct) ++ s :: r)).
+  { cbn [span]. rewrite Hcs.
+    assert (Hh : span char_sentinel (sep ++ (c0 :: ct) ++ s :: r) = ([], sep ++ (c0 :: ct) ++ s :: r)).
+    { unfold sep_ok in Hsep.
+      repeat (apply orb_true_iff in Hsep as [Hsep|Hsep]); apply bytes_eqb_eq in Hsep; subst sep; reflexivity. }
+    rewrite Hh. reflexivity. }
+  rewrite Hsp.
+  assert (Esb : utf8_str [s] = [s]).
+  { unfold utf8_str. cbn [flat_map]. unfold utf8_enc. replace (s <? 128) with true by lia. reflexivity. }
+  rewrite Esb.
+  assert (Hsk : skip_separator (sep ++ (c0 :: ct) ++ s :: r) = Some ((c0 :: ct) ++ s :: r)).
+  { unfold sep_ok in Hsep.
+    repeat (apply orb_true_iff in Hsep as [Hsep|Hsep]); apply bytes_eqb_eq in Hsep; subst sep; reflexivity. }
+  rewrite Hsk.
+  (* VERBATIM_CONTENTS *)
+  pose proof Hct as Hct'. cbn [forallb] in Hct'. apply andb_true_iff in Hct' as [Hc0 _].
+  assert (Hvc : vc_token [s] idx ((c0 :: ct) ++ s :: r) = (Some (VContents, rev (c0 :: ct), s :: r), O)).
+  { unfold vc_token, is_sentinel_char, is_at. cbn [length app la_eq nth starts_with].
+    replace (c0 =? s) with false by lia. cbn [andb].
+    assert (Hi : (if Nat.ltb idx 1 then (match idx with O => false | S _ => c0 =? 0 end, S idx) else (false, idx))
+                 = (false, 1%nat)).
+    { destruct idx as [|[|i]]; [reflexivity | reflexivity | lia]. }
+    destruct idx as [|[|i]]; [| |lia].
+    - cbn [Nat.ltb Nat.leb nth]. replace (c0 =? s) with false by lia. cbn [negb].
+      change (c0 :: ct ++ s :: r) with ((c0 :: ct) ++ s :: r).
+      rewrite (vc_loop_simple s 1 (c0 :: ct) r [] None Hct) by discriminate. rewrite app_nil_r. reflexivity.
+    - cbn [Nat.ltb Nat.leb]. cbn [negb].
+      change (c0 :: ct ++ s :: r) with ((c0 :: ct) ++ s :: r).
+      rewrite (vc_loop_simple s 1 (c0 :: ct) r [] None Hct) by discriminate. rewrite app_nil_r. reflexivity. }
+  rewrite Hvc.
+  (* VERBATIM_END *)
+  assert (Hve : ve_token [s] O (s :: r) = Some (r, 1%nat)).
+  { unfold ve_token, is_sentinel_char. cbn [length Nat.ltb Nat.leb la_eq nth]. rewrite N.eqb_refl.
+    cbn [ve_loop andb]. rewrite Hcs. cbn [length Nat.ltb Nat.leb].
+    destruct r as [|c r']; cbn [ve_loop andb]; reflexivity. }
+  rewrite Hve. rewrite rev_involutive. reflexivity.
+Qed.
+
+Lemma sentinel_free_single s ct :
+  sentinel_free [s] ct = true -> forallb (fun c => negb (c =? s)) ct = true.
+Proof.
+  induction ct as [|c r IH]; intro H; [reflexivity|].
+  cbn [sentinel_free] in H. apply andb_true_iff in H as [H1 H2].
+  cbn [forallb]. rewrite (IH H2), andb_true_r.
+  cbn [app starts_with] in H1. rewrite andb_true_r in H1. exact H1.
+Qed.
+
+Lemma render_body_cons i t : render_body (i :: t) = render_item i ++ render_body t.
+Proof. unfold render_body. cbn [flat_map]. rewrite app_assoc. reflexivity. Qed.
+
+Lemma render_head_not_ws t :
+  match t with j :: _ => starts_ws j = false | [] => True end -> head_not_ws (render_body t).
+Proof.
+  destruct t as [|j t']; intro H; [reflexivity|]. rewrite render_body_cons.
+  destruct j; cbn [render_item app head_not_ws]; try reflexivity. exact H.
+Qed.
+
+Lemma lex_items items :
+  forall f idx acc,
+    items_ok items = true -> forallb simple_verbatim items = true ->
+    (idx <= 1)%nat -> (length items < f)%nat ->
+    lex_string f idx (render_body items) acc = Ok (acc ++ body_value items).
+Proof.
+  induction items as [|i t IH]; intros f idx acc Hok Hsv Hidx Hf.
+  - destruct f as [|f]; [cbn [length] in Hf; lia|]. cbn. rewrite app_nil_r. reflexivity.
+  - destruct f as [|f]; [lia|]. cbn [length] in Hf.
+    cbn [items_ok] in Hok. apply andb_true_iff in Hok as [Hok Hokt]. apply andb_true_iff in Hok as [Hi Hnext].
+    cbn [forallb] in Hsv. apply andb_true_iff in Hsv as [Hsi Hsvt].
+    rewrite render_body_cons. unfold body_value. cbn [flat_map]. fold (body_value t).
+    rewrite app_assoc.
+    destruct i as [c | c | hx | nl ws | sent sep ct]; cbn [render_item item_value item_ok] in *.
+    + apply andb_true_iff in Hi as [Hi H92]. apply andb_true_iff in Hi as [Hq H34].
+      cbn [app]. rewrite lex_char by lia. apply IH; try assumption; lia.
+    + destruct (escape_char c) as [v|] eqn:Ev; [|discriminate].
+      cbn [app]. rewrite (lex_esc f idx c v _ acc Ev). apply IH; try assumption; lia.
+    + apply andb_true_iff in Hi as [Hi Hvs]. apply andb_true_iff in Hi as [Hne Hh].
+      cbn [app]. rewrite <- app_assoc. cbn [app].
+      rewrite lex_code.
+      * apply IH; try assumption; lia.
+      * destruct hx; [discriminate | discriminate].
+      * exact Hh.
+      * unfold valid_scalar in Hvs. change (2 ^ 32) with 4294967296. lia.
+    + apply andb_true_iff in Hi as [Hnl Hws].
+      cbn [app]. rewrite <- app_assoc. rewrite lex_cont; try assumption.
+      * rewrite app_nil_r. apply IH; try assumption; lia.
+      * apply render_head_not_ws. destruct t as [|j t']; [exact I|]. apply negb_true_iff. exact Hnext.
+    + destruct sent as [|s [|s2 sr]]; try discriminate.
+      destruct ct as [|c0 ct]; [discriminate|]. cbn [simple_verbatim] in Hsi.
+      apply andb_true_iff in Hi as [Hi Hfree]. apply andb_true_iff in Hi as [Hi Hsep].
+      apply andb_true_iff in Hi as [_ Hcs]. cbn [forallb] in Hcs. rewrite andb_true_r in Hcs.
+      cbn [app]. rewrite <- !app_assoc. cbn [app].
+      rewrite lex_verb; try assumption; try lia.
+      * apply IH; try assumption; lia.
+      * apply sentinel_free_single. exact Hfree.
+Qed.
+
+Theorem string_literal_exact (items : list sitem) :
+  items_ok items = true -> forallb simple_verbatim items = true ->
+  impl_string (render_body items) = Ok (body_value items).
+Proof.
+  intros Hok Hsv. unfold impl_string.
+  rewrite (lex_items items _ O [] Hok Hsv); [reflexivity | lia |].
+  unfold render_body. rewrite app_length. cbn [length].
+  assert (H : (length items <= length (flat_map render_item items))%nat).
+  { clear. induction items as [|i t IH]; cbn [flat_map length]; [lia|]. rewrite app_length.
+    assert (1 <= length (render_item i))%nat by (destruct i; cbn [render_item length]; lia). lia. }
+  lia.
+Qed.
